@@ -817,12 +817,13 @@ fn router_mix(ctx: &mut Ctx, seed: u64) {
     let posts = std::sync::atomic::AtomicU64::new(warm);
     let inputs = std::sync::atomic::AtomicU64::new(0);
     let tasks = std::sync::atomic::AtomicU64::new(0);
+    let jobs = std::sync::atomic::AtomicU64::new(0);
     let n_clients = 8usize;
     let gate = std::sync::atomic::AtomicUsize::new(0);
     let lines = r.range(20, 60);
     std::thread::scope(|sc| {
         for c in 0..n_clients {
-            let (app, h, thread, gate, posts, inputs, tasks) = (&app, &h, &thread, &gate, &posts, &inputs, &tasks);
+            let (app, h, thread, gate, posts, inputs, tasks, jobs) = (&app, &h, &thread, &gate, &posts, &inputs, &tasks, &jobs);
             sc.spawn(move || {
                 use std::sync::atomic::Ordering::SeqCst;
                 gate.fetch_add(1, SeqCst);
@@ -855,7 +856,12 @@ fn router_mix(ctx: &mut Ctx, seed: u64) {
                         }
                     }
                     5 => {
-                        let _ = h.block_on(call_json(app, http_req("POST", &format!("/threads/{thread}/compaction-checkpoint"), Some(json!({"summary_markdown": "# checkpoint"})))));
+                        let _ = h.block_on(call_json(app, http_req("POST", &format!("/threads/{thread}/compaction-checkpoint"), Some(json!({"summary_markdown": "# checkpoint", "stride_messages": 1})))));
+                        // a compaction job: its task appends job_spawned / checkpoint_created / job_ended while the posts go on
+                        let (st, _) = h.block_on(call_json(app, http_req("POST", &format!("/threads/{thread}/compaction-auto"), Some(json!({"stride_messages": 1, "max_new_checkpoints": 2, "actor_id": "user", "origin": "harness"})))));
+                        if st == 202 {
+                            jobs.fetch_add(1, SeqCst);
+                        }
                         post(thread, "after the checkpoint".into());
                     }
                     6 => {
@@ -870,10 +876,24 @@ fn router_mix(ctx: &mut Ctx, seed: u64) {
                         }
                     }
                     _ => {
-                        let cmd = format!("for i in $(seq 1 {lines}); do echo out-$i; echo err-$i 1>&2; done");
-                        let (st, _) = h.block_on(call_json(app, http_req("POST", "/tasks", Some(json!({"tool": "bash", "args": {"command": cmd}})))));
+                        // a pipes task printing to stdout and stderr; while it runs its control paths write to the same
+                        // task stream: stdin written, signal, cancel (each emits frames through the task's one counter)
+                        let cmd = format!("for i in $(seq 1 {lines}); do echo out-$i; echo err-$i 1>&2; sleep 0.003; done; cat");
+                        let (st, v) = h.block_on(call_json(app, http_req("POST", "/tasks", Some(json!({"tool": "bash", "args": {"command": cmd}})))));
                         if st == 201 {
                             tasks.fetch_add(1, SeqCst);
+                            if let Some(tid) = v.get("task_id").and_then(|x| x.as_str()) {
+                                for k in 0..3 {
+                                    std::thread::sleep(Duration::from_millis(15));
+                                    let _ = h.block_on(call_json(app, http_req("POST", &format!("/tasks/{tid}/stdin"), Some(json!({"chunk_b64": "aGkK"})))));
+                                    if k == 1 {
+                                        let _ = h.block_on(call_json(app, http_req("POST", &format!("/tasks/{tid}/signal"), Some(json!({"signal": "SIGUSR1"})))));
+                                    }
+                                }
+                                std::thread::sleep(Duration::from_millis(40));
+                                let _ = h.block_on(call_json(app, http_req("POST", &format!("/tasks/{tid}/signal"), Some(json!({"signal": "INT"})))));
+                                let _ = h.block_on(call_json(app, http_req("POST", &format!("/tasks/{tid}/cancel"), Some(json!({"reason": "harness"})))));
+                            }
                         }
                     }
                 }));
@@ -881,7 +901,7 @@ fn router_mix(ctx: &mut Ctx, seed: u64) {
         }
     });
     use std::sync::atomic::Ordering::SeqCst;
-    let (posts, inputs, tasks) = (posts.load(SeqCst), inputs.load(SeqCst), tasks.load(SeqCst));
+    let (posts, inputs, tasks, jobs) = (posts.load(SeqCst), inputs.load(SeqCst), tasks.load(SeqCst), jobs.load(SeqCst));
     let read = || -> Vec<Hdr> {
         let bytes = std::fs::read(&log_path).unwrap_or_default();
         let cut = bytes.iter().rposition(|b| *b == b'\n').map(|i| i + 1).unwrap_or(0);
@@ -894,8 +914,9 @@ fn router_mix(ctx: &mut Ctx, seed: u64) {
         let hs = read();
         let run_ended = hs.iter().filter(|x| matches!(x.ev.kind, rip_kernel::EventKind::ContinuityRunEnded { .. })).count() as u64;
         let sess_ended = hs.iter().filter(|x| matches!(x.ev.kind, rip_kernel::EventKind::SessionEnded { .. })).count() as u64;
-        let task_fin = hs.iter().filter(|x| matches!(&x.ev.kind, rip_kernel::EventKind::ToolTaskStatus { status, .. } if { let s = format!("{status:?}").to_lowercase(); s.contains("exit") || s.contains("fail") })).count() as u64;
-        if run_ended >= posts && sess_ended >= posts + inputs && task_fin >= tasks {
+        let task_fin = hs.iter().filter(|x| matches!(&x.ev.kind, rip_kernel::EventKind::ToolTaskStatus { status, .. } if { let s = format!("{status:?}").to_lowercase(); s.contains("exit") || s.contains("fail") || s.contains("cancel") })).count() as u64;
+        let job_ended = hs.iter().filter(|x| matches!(x.ev.kind, rip_kernel::EventKind::ContinuityJobEnded { .. })).count() as u64;
+        if run_ended >= posts && sess_ended >= posts + inputs && task_fin >= tasks && job_ended >= jobs {
             std::thread::sleep(Duration::from_millis(150));
             quiet = true;
             break;
@@ -912,6 +933,8 @@ fn router_mix(ctx: &mut Ctx, seed: u64) {
     }
     let hs = read();
     ctx.res.bump_by("router_mix_frames", hs.len() as u64);
+    ctx.res.bump_by("router_mix_task_control_frames", hs.iter().filter(|x| matches!(x.code, 32 | 33 | 35 | 36 | 37)).count() as u64);
+    ctx.res.bump_by("router_mix_job_and_checkpoint_frames", hs.iter().filter(|x| matches!(x.code, 9 | 10 | 11 | 12)).count() as u64);
     let streams: std::collections::BTreeSet<(u64, String)> = hs.iter().map(|x| (kind_code(x.kind), x.sid.clone())).collect();
     ctx.res.bump_by("router_mix_streams", streams.len() as u64);
     let fresh = if quiet { rip_log::EventLog::new(&log_path).and_then(|l| l.replay_validated().map(|_| ())) } else { Ok(()) };
